@@ -27,3 +27,5 @@ def run(prog, rep):
     _rn.run_cstr_args(prog, rep)
     from ..rules import r_key as _rkx
     _rkx.run_handles_only(prog, rep)
+    from ..rules import r_key as _rk14
+    _rk14.run_setter_verbatim(prog, rep, classes=('nix::Property', 'nix::Section'), floor=6)
